@@ -122,6 +122,23 @@ fn main() {
             println!("d4 paseto-v3 unwraps : {:02x?}", kb.as_ref().map_err(|e| e.to_string()));
             println!("d4 same key: aws-lc={} rustcrypto={}", ka.as_deref().ok() == Some(&key[..]), kb.as_deref().ok() == Some(&key[..]));
         }
+        "d8" => {
+            // k3.public carrying the 97-byte *uncompressed* SEC1 encoding of a valid key
+            use paseto_core::version::Public;
+            let sk = paseto_v3::SecretKey::random().unwrap();
+            let pk = sk.public_key();
+            let compressed = pk.expose_key().as_raw_bytes().to_vec();
+            let point = p384::PublicKey::from_sec1_bytes(&compressed).unwrap();
+            use p384::elliptic_curve::sec1::ToEncodedPoint;
+            let uncompressed = point.to_encoded_point(false).as_bytes().to_vec();
+            println!("d8 lengths: compressed={} uncompressed={}", compressed.len(), uncompressed.len());
+            let txt = paseto_v3::KeyText::<Public>::from_raw_bytes(&uncompressed).to_string();
+            let a: Result<paseto_v3::PublicKey, _> = txt.parse();
+            let b: Result<paseto_v3_aws_lc::PublicKey, _> = txt.parse();
+            println!("d8 paseto-v3 accepts 97-byte k3.public: {}", a.is_ok());
+            println!("d8 aws-lc   accepts 97-byte k3.public: {}", b.is_ok());
+            if let Ok(a) = a { println!("d8 re-serialises to the same string: {}", a.to_string() == txt); }
+        }
         _ => {}
     }
 }
